@@ -91,65 +91,22 @@ Theorem C12_inspect : forall A fuel (items : list A) rs0 fs0,
 Proof. exact (@inspect_correct). Qed.
 Print Assumptions C12_inspect.
 
-(* Two downstreams.  FULL statement (strict protocol toward both downstreams):
-     forall ..., o <> Panicked /\ down_spec (map fst) items o (lg (fst s')) /\
-                                  down_spec (map snd) items o (lg (snd s'))
-   is FALSE of the faithful model and of the real code (finding
-   multi-downstream/poll_finalize-after-Done): see the _refuted theorems.  What holds for all
-   inputs and scripts is the statement with [down_spec_weak] (protocol [wfw]: as strict, but
-   poll_finalize may be called again on a downstream that already answered Done). *)
-Theorem C12_unzip_partial : forall A B fuel (items : list (A * B)) r0 f0 r1 f1,
-    match drive (unzip_push (rec_push A) (rec_push B)) fuel items (mkds r0 f0 [], mkds r1 f1 []) [] with
-    | (o, _, s') => o <> Panicked /\
-                    down_spec_weak (map fst) items o (lg (fst s')) /\
-                    down_spec_weak (map snd) items o (lg (snd s'))
-    end.
-Proof. exact unzip_correct. Qed.
-Print Assumptions C12_unzip_partial.
+(* Two / many downstreams: fanout.rs, unzip.rs, demux_var.rs (/repo de9fd2170a9).
+   History: before that commit poll_finalize used ready_both! and polled a downstream again
+   after it had answered Done (finding multi-downstream/poll_finalize-after-Done, now `fixed:`
+   in known_findings.d/C12.txt).  The former theorems C12_{unzip,fanout,demux}_partial (weak
+   protocol only) and C12_{fanout,unzip,demux}_strict_refuted were about the pre-fix step
+   functions; those functions and their lemmas survive in Push/Historic.v, Push/PTwo.v
+   (fanout_strict_refuted, unzip_strict_refuted) and Push/PDemux.v section DemuxOld, for the
+   record only.  Former witnesses (they now satisfy the strict protocol, see the Examples at
+   the end and corpus/C12/fanout_refinalize.json):
+     fanout / unzip: items [], downstream 0 scripts ([],[]), downstream 1 scripts ([],[Pend])
+                     => downstream 0 saw poll_finalize twice ([EFin Done; EFin Done]);
+     demux (2 downstreams): items [], scripts [([],[]); ([],[Pend])], same effect. *)
 
-Theorem C12_unzip_terminates : forall A B fuel (items : list (A * B)) r0 f0 r1 f1,
-    npend r0 + npend f0 + npend r1 + npend f1 + length items < fuel ->
-    fst (fst (drive (unzip_push (rec_push A) (rec_push B)) fuel items (mkds r0 f0 [], mkds r1 f1 []) []))
-    = Finished.
-Proof. exact unzip_terminates. Qed.
-Print Assumptions C12_unzip_terminates.
-
-Theorem C12_fanout_partial : forall A fuel (items : list A) r0 f0 r1 f1,
-    match drive (fanout_push (rec_push A) (rec_push A)) fuel items (mkds r0 f0 [], mkds r1 f1 []) [] with
-    | (o, _, s') => o <> Panicked /\
-                    down_spec_weak (fun xs => xs) items o (lg (fst s')) /\
-                    down_spec_weak (fun xs => xs) items o (lg (snd s'))
-    end.
-Proof. exact fanout_correct. Qed.
-Print Assumptions C12_fanout_partial.
-
-Theorem C12_fanout_terminates : forall A fuel (items : list A) r0 f0 r1 f1,
-    npend r0 + npend f0 + npend r1 + npend f1 + length items < fuel ->
-    fst (fst (drive (fanout_push (rec_push A) (rec_push A)) fuel items (mkds r0 f0 [], mkds r1 f1 []) []))
-    = Finished.
-Proof. exact fanout_terminates. Qed.
-Print Assumptions C12_fanout_terminates.
-
-Theorem C12_fanout_strict_refuted : exists (items : list N) r0 f0 r1 f1,
-    match drive (fanout_push (rec_push N) (rec_push N)) 10 items (mkds r0 f0 [], mkds r1 f1 []) [] with
-    | (o, _, s') => o = Finished /\ wf (lg (fst s')) = false /\ refin (lg (fst s')) = 1
-    end.
-Proof. exact fanout_strict_refuted. Qed.
-Print Assumptions C12_fanout_strict_refuted.
-
-Theorem C12_unzip_strict_refuted : exists (items : list (N * N)) r0 f0 r1 f1,
-    match drive (unzip_push (rec_push N) (rec_push N)) 10 items (mkds r0 f0 [], mkds r1 f1 []) [] with
-    | (o, _, s') => o = Finished /\ wf (lg (fst s')) = false /\ refin (lg (fst s')) = 1
-    end.
-Proof. exact unzip_strict_refuted. Qed.
-Print Assumptions C12_unzip_strict_refuted.
-
-(* The same combinators AFTER the proposed finalize-once fix
-   (fixes/C12_fanout_unzip_finalize_once.diff; models fanout_once_push / unzip_once_push, selected
-   by the correspondence check when the source it runs against contains the fix): the FULL
-   statement, strict protocol toward both downstreams, holds. *)
+(* FULL statement: strict protocol toward both downstreams, each finalized exactly once. *)
 Theorem C12_unzip_fixed : forall A B fuel (items : list (A * B)) r0 f0 r1 f1,
-    match drive (unzip_once_push (rec_push A) (rec_push B)) fuel items
+    match drive (unzip_push (rec_push A) (rec_push B)) fuel items
                 ((false, false), (mkds r0 f0 [], mkds r1 f1 [])) [] with
     | (o, _, s') => o <> Panicked /\
                     down_spec (map fst) items o (lg (fst (snd s'))) /\
@@ -159,7 +116,7 @@ Proof. exact unzip_once_correct. Qed.
 Print Assumptions C12_unzip_fixed.
 
 Theorem C12_fanout_fixed : forall A fuel (items : list A) r0 f0 r1 f1,
-    match drive (fanout_once_push (rec_push A) (rec_push A)) fuel items
+    match drive (fanout_push (rec_push A) (rec_push A)) fuel items
                 ((false, false), (mkds r0 f0 [], mkds r1 f1 [])) [] with
     | (o, _, s') => o <> Panicked /\
                     down_spec (fun xs => xs) items o (lg (fst (snd s'))) /\
@@ -170,14 +127,14 @@ Print Assumptions C12_fanout_fixed.
 
 Theorem C12_fanout_fixed_terminates : forall A fuel (items : list A) r0 f0 r1 f1,
     npend r0 + npend f0 + npend r1 + npend f1 + length items < fuel ->
-    fst (fst (drive (fanout_once_push (rec_push A) (rec_push A)) fuel items
+    fst (fst (drive (fanout_push (rec_push A) (rec_push A)) fuel items
                     ((false, false), (mkds r0 f0 [], mkds r1 f1 [])) [])) = Finished.
 Proof. exact fanout_once_terminates. Qed.
 Print Assumptions C12_fanout_fixed_terminates.
 
 Theorem C12_unzip_fixed_terminates : forall A B fuel (items : list (A * B)) r0 f0 r1 f1,
     npend r0 + npend f0 + npend r1 + npend f1 + length items < fuel ->
-    fst (fst (drive (unzip_once_push (rec_push A) (rec_push B)) fuel items
+    fst (fst (drive (unzip_push (rec_push A) (rec_push B)) fuel items
                     ((false, false), (mkds r0 f0 [], mkds r1 f1 [])) [])) = Finished.
 Proof. exact unzip_once_terminates. Qed.
 Print Assumptions C12_unzip_fixed_terminates.
@@ -188,28 +145,19 @@ Print Assumptions C12_unzip_fixed_terminates.
    the items addressed to it, in order. *)
 Theorem C12_demux_fixed : forall A fuel (items : list (nat * A)) (scripts : list (list bool * list bool)),
     Forall (in_range (length scripts)) items ->
-    match drive (demux_once_push (rec_push A)) fuel items ([], map (@ds0 A) scripts) [] with
+    match drive (demux_push (rec_push A)) fuel items ([], map (@ds0 A) scripts) [] with
     | (o, _, s') => o <> Panicked /\ length (snd s') = length scripts /\ downs_spec 0 items o (snd s')
     end.
 Proof. exact (@demux_once_correct). Qed.
 Print Assumptions C12_demux_fixed.
 
-(* before the fix: weak protocol only (same finding as fanout / unzip) *)
-Theorem C12_demux_partial : forall A fuel (items : list (nat * A)) (scripts : list (list bool * list bool)),
-    Forall (in_range (length scripts)) items ->
-    match drive (demux_push (rec_push A)) fuel items (map (@ds0 A) scripts) [] with
-    | (o, _, s') => o <> Panicked /\ length s' = length scripts /\ downs_spec_weak 0 items o s'
-    end.
-Proof. exact (@demux_correct). Qed.
-Print Assumptions C12_demux_partial.
 
-Theorem C12_demux_strict_refuted : exists (items : list (nat * N)) (scripts : list (list bool * list bool)),
-    Forall (in_range (length scripts)) items /\
-    match drive (demux_push (rec_push N)) 10 items (map (@ds0 N) scripts) [] with
-    | (o, _, s') => o = Finished /\ wf (lg (hd (mkds [] [] []) s')) = false
-    end.
-Proof. exists [], [([], []); ([], [false])]. split; [constructor|]. vm_compute. auto. Qed.
-Print Assumptions C12_demux_strict_refuted.
+Theorem C12_demux_fixed_terminates : forall A fuel (items : list (nat * A)) (scripts : list (list bool * list bool)),
+    Forall (in_range (length scripts)) items ->
+    mu_l (map (@ds0 A) scripts) + length items < fuel ->
+    fst (fst (drive (demux_push (rec_push A)) fuel items ([], map (@ds0 A) scripts) [])) = Finished.
+Proof. exact (@demux_once_terminates). Qed.
+Print Assumptions C12_demux_fixed_terminates.
 
 (* non-vacuity: a run with Pend answers in both scripts that finishes and delivers items *)
 Example C12_map_example :
@@ -221,8 +169,8 @@ Proof. vm_compute. reflexivity. Qed.
 
 Example C12_unzip_example :
   match drive (unzip_push (rec_push N) (rec_push N)) 10 [(1, 2); (3, 4)]%N
-              (mkds [false] [] [], mkds [true; false] [false] []) [] with
-  | (o, _, s') => o = Finished /\ sent (lg (fst s')) = [1; 3]%N /\ sent (lg (snd s')) = [2; 4]%N
+              ((false, false), (mkds [false] [] [], mkds [true; false] [false] [])) [] with
+  | (o, _, s') => o = Finished /\ sent (lg (fst (snd s'))) = [1; 3]%N /\ sent (lg (snd (snd s'))) = [2; 4]%N
   end.
 Proof. vm_compute. auto. Qed.
 
@@ -230,5 +178,13 @@ Example C12_flat_map_example :
   match drive (flat_map_push (rec_push N) (fun x => [x; x + 10]%N)) 20 [1; 2]%N
               (None, mkds [true; false; false; true; false] [false] []) [] with
   | (o, _, s') => o = Finished /\ sent (lg (snd s')) = [1; 11; 2; 12]%N
+  end.
+Proof. vm_compute. auto. Qed.
+
+(* the former witness of the fixed finding: downstream 0 is now finalized exactly once *)
+Example C12_fanout_former_witness :
+  match drive (fanout_push (rec_push N) (rec_push N)) 10 []
+              ((false, false), (mkds [] [] [], mkds [] [false] [])) [] with
+  | (o, _, s') => o = Finished /\ lg (fst (snd s')) = [EFin true] /\ wf (lg (snd (snd s'))) = true
   end.
 Proof. vm_compute. auto. Qed.
